@@ -118,12 +118,18 @@ impl SwiftField for Field53B {
         }
         if lines.len() >= 2 {
             // Two lines: first is party_identifier, second is location
-            if !lines[0].is_empty() {
-                party_identifier =
-                    Some(parse_max_length(lines[0], 34, "Field53B party_identifier")?);
+            if lines[0].is_empty() {
+                return Err(ParseError::InvalidFormat {
+                    message: "Field 53B party identifier line is empty".to_string(),
+                });
             }
+            let party_id = parse_max_length(lines[0], 34, "Field53B party_identifier")?;
+            parse_swift_chars(&party_id, "Field53B party_identifier")?;
+            party_identifier = Some(party_id);
             if !lines[1].is_empty() {
-                location = Some(parse_max_length(lines[1], 35, "Field53B location")?);
+                let loc = parse_max_length(lines[1], 35, "Field53B location")?;
+                parse_swift_chars(&loc, "Field53B location")?;
+                location = Some(loc);
             }
         } else if lines.len() == 1 && !lines[0].is_empty() {
             let line = lines[0];
@@ -135,6 +141,7 @@ impl SwiftField for Field53B {
                         .chars()
                         .all(|c| c.is_ascii_uppercase() || c.is_ascii_digit()));
 
+            parse_swift_chars(line, "Field53B")?;
             if is_party_identifier {
                 party_identifier = Some(parse_max_length(line, 34, "Field53B party_identifier")?);
             } else {
